@@ -91,9 +91,9 @@ def _davie_foster_approximation(W, H, h, levy_area_approximation, get_noise):
             # Foster's additional correction to Davie's approximation
             tenth_h = 0.1 * h
             H_squared = H ** 2
-            std = (tenth_h * (tenth_h + H_squared.unsqueeze(-1) + H_squared.unsqueeze(-2))).sqrt()
+            std = (tenth_h * (0.25 * h + H_squared.unsqueeze(-1) + H_squared.unsqueeze(-2))).sqrt()
         else:  # davie approximation
-            std = math.sqrt(_r12 * h ** 2)
+            std = math.sqrt(0.5 * _r12 * h ** 2)
         a_tilde = std * noise
         A += a_tilde
         return A
